@@ -53,8 +53,9 @@ def unhexlist(s):
 # ---------------------------------------------------------------------------------------
 # builds
 
-def build_harness():
-    """(re)build lvh against /repo's current working tree, hooks on. Returns (ok, log)."""
+def build_harness(unoptimised=False):
+    """(re)build lvh against /repo's current working tree, hooks on. Returns (ok, log).
+    `unoptimised`: also the opt-level 0 build (profile dbg) that C19 runs in worker processes."""
     with Lock("cargo"):
         lock = os.path.join(HARNESS, "Cargo.lock")
         if not os.path.exists(lock):
@@ -62,6 +63,10 @@ def build_harness():
             shutil.copy("/repo/Cargo.lock", lock)
         p = subprocess.run(["cargo", "build", "--release", "--offline"], cwd=HARNESS, env=ENV,
                            stdout=subprocess.PIPE, stderr=subprocess.STDOUT, text=True)
+        if p.returncode == 0 and unoptimised:
+            q = subprocess.run(["cargo", "build", "--profile", "dbg", "--offline"], cwd=HARNESS, env=ENV,
+                               stdout=subprocess.PIPE, stderr=subprocess.STDOUT, text=True)
+            return q.returncode == 0, p.stdout + q.stdout
         return p.returncode == 0, p.stdout
 
 
